@@ -34,7 +34,8 @@ func (c *runCtx) c18Case(kind string, x []byte) {
 
 func runC18(c *runCtx) {
 	r := c.rng
-	names := []string{"a.txt", "dir/", "dir/file.bin", "nöm-ünï/ß.txt", strings.Repeat("long/", 30) + "x", "日本語/ファイル", "file with spaces", "-dash", "0", "x/gpkg-1", "pkg/gpkg-1", "gpkg-1", "a/gpkg-10", "./", strings.Repeat("n", 100), strings.Repeat("m", 99)}
+	names := []string{"a.txt", "dir/", "dir/file.bin", "nöm-ünï/ß.txt", strings.Repeat("long/", 30) + "x", "日本語/ファイル", "file with spaces", "-dash", "0", "x/gpkg-1", "pkg/gpkg-1", "gpkg-1", "a/gpkg-10", "./", strings.Repeat("n", 100), strings.Repeat("m", 99),
+		"BMW-service-manual.txt", "ID3-tagging-notes.txt", "BZh-samples/readme", "MThd-dump.bin", "GIF89a", "%PDF-notes", "RIFF", "II*", "fLaC", "OggS", "070707", "Rar!", "7z", "wOFF", "#!AMR"}
 	formats := []tar.Format{tar.FormatUSTAR, tar.FormatPAX, tar.FormatGNU}
 	types := []byte{tar.TypeReg, tar.TypeDir, tar.TypeSymlink, tar.TypeLink, tar.TypeFifo, tar.TypeChar}
 	nw := 200
